@@ -401,6 +401,18 @@ def run(ctx):
         big = rng.choice(nonpin6) if j % 4 else rng.choice(p6)
         six.append(tuple([rng.choice(small[4:]) for _ in range(j % 3)] + [big]))
     bases = bases + six
+    # bases listed in an order in which elements of the same length are NOT adjacent (nothing says a basis is given
+    # sorted: a grouping by length must not depend on it)
+    mixed = []
+    for _ in range(24 if quick else 150):
+        a, b = rng.sample([p for p in small if len(p) == 4], 2)
+        c = rng.choice([p for p in small if len(p) == 3])
+        mixed.append((a, c, b))
+        mixed.append((c, a, rng.choice([p for p in small if len(p) == 3 and p != c]), b))
+    mixed += [(Perm((1, 3, 0, 2)), Perm((0, 1, 2)), Perm((2, 0, 3, 1))), (Perm((0, 1, 2, 3)), Perm((2, 1, 0)), Perm((3, 2, 1, 0)))]
+    bases = bases + mixed
+    ctx.run("C15.accept", [(b, L) for b in mixed], chunk=2, timeout_s=900,
+            rule=f"{len(mixed)} seeded bases of 3-4 elements in which elements of equal length are separated by one of another length")
     ctx.run("C15.accept", [(b, L) for b in six], chunk=4, timeout_s=900,
             rule=f"{len(six)} seeded bases of 1-3 elements with one of length 6 (three quarters of them one of the "
                  f"{len(nonpin6)} permutations of length 6 without a pin word), same words")
@@ -414,6 +426,7 @@ def run(ctx):
     else:
         dbs = [()] + singles + rng.sample(pairs, 80) + [(p,) for p in rng.sample(D.perms(5), 16)]
         dbs.sort(key=lambda b: -sum(len(p) for p in b))
+    dbs = dbs + [(nonpin6[0],), (nonpin6[-1], Perm((0, 2, 1)))] + mixed[:4]
     ctx.run("C15.db", [(b, dbl) for b in dbs], chunk=1, timeout_s=900,
             rule=f"empty basis, all singletons <= 4, seeded pairs ({'16' if quick else '80 + 16 singletons of length 5'}): "
                  f"store/load/use_db in a fresh temporary directory; exact equivalence + all direction words up to length {dbl}")
